@@ -17,6 +17,7 @@ import (
 	"verif/e2/check"
 	"verif/e2/families"
 	"verif/e2/pipe"
+	"verif/e2/spec"
 )
 
 var numRe = regexp.MustCompile(`[Mm]\d+`)
@@ -182,7 +183,8 @@ func run(c *core.Ctx) {
 		"non-trivial = every design (each has at least one method with payload or result)")
 	c.Assume("example code imports goa.design/clue which is not available offline: a signature-compatible stub module stands in (environment, not goa code)")
 	c.Assume("gRPC designs need protoc: a stand-in protoc is used when present (see C10)")
-	for _, f := range families.All(c.Thorough()) {
+	c.Note("deep_families", spec.DeepShapesDoc+" | "+spec.DeepValidationDoc)
+	for _, f := range append(families.All(c.Thorough()), families.Deep(c.Thorough())...) {
 		if only := os.Getenv("VERIF_FAMILY"); only != "" && !strings.HasPrefix(f.Name, only) {
 			c.Incomplete("restricted to family " + only + " by VERIF_FAMILY (development aid)")
 			continue
